@@ -193,7 +193,7 @@ Round1(fr, n, h, canFirst) ==
       msgs    == IF fr.cache.h = h THEN fr.cache.msgs ELSE <<>>
       cleared == [started EXCEPT !.cache = [h |-> fr.cache.h, msgs |-> IF fr.cache.h <= h THEN <<>> ELSE fr.cache.msgs]]
   IN FoldLeft(LAMBDA acc, m :
-                IF acc.ns.h # h \/ ~acc.ns.member THEN acc
+                IF (On("drain_height_guard") /\ acc.ns.h # h) \/ ~acc.ns.member THEN acc
                 ELSE LET R == TermHandle(ToR(acc), n, m)
                          a1 == FromR(acc, R)
                      IN IF R.commit = "-" THEN a1 ELSE Round2(a1, n, h + 1),
